@@ -30,8 +30,16 @@ def normalise_signals() -> None:
         pass
 
 
+def normalise_environment() -> None:
+    """gallia takes option values from GALLIA_* variables; the cases set the ones they mean to set, nothing may leak in from whoever
+    started the check.  (Interpreter switches are dropped by ./check before the interpreter starts.)"""
+    for k in [k for k in os.environ if k.startswith("GALLIA_")]:
+        del os.environ[k]
+
+
 def main() -> int:
     normalise_signals()
+    normalise_environment()
     ap = argparse.ArgumentParser()
     ap.add_argument("prop")
     ap.add_argument("--tier", default=os.environ.get("VERIF_TIER", "quick"), choices=["quick", "thorough"])
